@@ -8,6 +8,7 @@ PROPS_PASSES = "RotoV.Props.C18Passes"
 PROPS_HISTORY = "RotoV.Props.C18History"
 PROPS_NAMES = "RotoV.Props.C18Names"
 PROPS_DECLTYPE = "RotoV.Props.C18DeclType"
+PROPS_DECLRT = "RotoV.Props.C18DeclRuntimeType"
 
 
 def search(ctx):
@@ -23,7 +24,7 @@ def search(ctx):
 
 
 def run(ctx):
-    ctx.extract(["keywords", "flattenuse", "regpasses", "itemnames", "decltype"])
+    ctx.extract(["keywords", "flattenuse", "regpasses", "itemnames", "decltype", "declrtype"])
     # three theorem modules, so that a change to the macro breaks exactly the T5 obligations, a change to the pass
     # structure of Rt::add exactly those of C18Passes and a change to the lexer's keyword table the others
     parts = []
@@ -50,14 +51,18 @@ def run(ctx):
     ok2 = prove(PROPS_USE, ["RotoV.Lemmas.UseTree", "RotoV.Model.UseTree"])
     # the theorems that mention the regenerated pass structure (pass order, per-arm scope, declare_import walk)
     ok3 = prove(PROPS_PASSES)
+    # the decision of Rt::declare_type (its guards over the registered entries, regenerated): "a Rust type is registered
+    # twice" is decided on the Rust type alone, whatever the identifier and the scope
+    # + the invariant of the two indexes of Vec<RuntimeType> established for every reachable runtime
+    ok6 = prove(PROPS_DECLTYPE, ["RotoV.Model.RegistrationDeclType", "RotoV.Lemmas.RegistrationTypeIndex"])
+    # TypeChecker::declare_runtime_type as facts (target declrtype): the primitive shortcut looks in the registration's
+    # own scope only, declares nothing; otherwise the own name is inserted
+    ok7 = prove(PROPS_DECLRT)
     if parts:
         ctx.coverage["theorems"] = [t for p in parts for t in p["theorems"]]
         ctx.coverage["nonvacuity_examples"] = sum(p["nonvacuity_examples"] or 0 for p in parts)
         ctx.coverage["axioms"] = {k: v for p in parts for k, v in (p["axioms"] or {}).items()}
-    # the decision of Rt::declare_type (its guards over the registered entries, regenerated): "a Rust type is registered
-    # twice" is decided on the Rust type alone, whatever the identifier and the scope
-    ok6 = prove(PROPS_DECLTYPE, ["RotoV.Model.RegistrationDeclType"])
-    ok2 = ok2 and ok3 and ok4 and ok5 and ok6
+    ok2 = ok2 and ok3 and ok4 and ok5 and ok6 and ok7
     if not (ok1 and ok2):
         ctx.lake_build(["rotov-driver"])
     if ctx.build_harness("c18"):
@@ -74,8 +79,12 @@ def run(ctx):
         "declare_constant / check_name, the scope graph's insert_*) are tied by (b) only; the quantifier over "
         "libraries is sampled there",
         "Rt::declare_type: its guards over the entries of self.types are regenerated (target decltype) as Boolean functions "
-        "of (same Rust type, same identifier, same scope) and proved to be the model's two early exits; that the scan is "
-        "over ALL of self.types, and declare_runtime_type itself, are tied by the differential run only",
+        "of (same Rust type, same identifier, same scope) and proved to be the model's two early exits on every runtime a "
+        "history of adds can reach (the invariant that ties the model's two indexes is proved, not assumed); the translator "
+        "accepts only scans whose receiver is `self.types.iter()`; TypeChecker::declare_runtime_type is regenerated as facts "
+        "(target declrtype: the primitive shortcut looks in the registration's own scope, non-recursively, applies to "
+        "Primitive | List, declares nothing; otherwise insert_type under the own name, clash propagated) = what the model's "
+        "declareType embodies; ScopeGraph::insert_type / insert_declaration / resolve_name are tied by the differential run only",
         "script-side name lookup is modelled for a fresh script at top level (root declarations, then root imports)",
         "library!: flatten_use_tree is regenerated from macros/src/lib.rs by a transliterator for list-functional Rust "
         "(extract/src/targets/c18.rs, mod listfn) and proved equal to the specification for all use trees; syn's parse "
